@@ -152,7 +152,7 @@ PROPS = {
         "assumptions": [],
     },
     "C02": {
-        "lean": ["Knut.Properties.C02", "Knut.Properties.C02Close", "Knut.Properties.C02Command", "Knut.FactsAgree.TransProcess", "Knut.FactsAgree.TransQuery", "Knut.FactsAgree.TransAmountsSum", "Knut.FactsAgree.TransReport", "Knut.FactsAgree.TransReportTotals", "Knut.FactsAgree.TransReportSort", "Knut.FactsAgree.TransRender"],
+        "lean": ["Knut.Properties.C02", "Knut.Properties.C02Close", "Knut.Properties.C02Command", "Knut.FactsAgree.TransProcess", "Knut.FactsAgree.TransQuery", "Knut.FactsAgree.TransAmountsSum", "Knut.FactsAgree.TransReport", "Knut.FactsAgree.TransReportTotals", "Knut.FactsAgree.TransReportSort", "Knut.FactsAgree.TransRender", "Knut.FactsAgree.TransRenderVals"],
         "level": "proof",
         "claim": "Spec.ledgerEntries (Spec/Ledger.lean) defines the report independently of the pipeline: window bookings mapped/filtered/aligned plus, with closing, the transfer of "
                  "each income/expense/equity total booked in [previous closing day, s) to Equity:Equity at every shown period start. Proved for all journals and flags: C02_noclose (without "
@@ -176,7 +176,7 @@ PROPS = {
         "assumptions": ["unvalued reports only (valued ones: C01/C03)"],
     },
     "C01": {
-        "lean": ["Knut.Properties.C01", "Knut.Properties.C01Table", "Knut.FactsAgree.TransAccount", "Knut.FactsAgree.TransPosting", "Knut.FactsAgree.TransTransaction", "Knut.FactsAgree.TransProcess", "Knut.FactsAgree.TransQuery", "Knut.FactsAgree.TransAmountsSum", "Knut.FactsAgree.TransReport", "Knut.FactsAgree.TransReportTotals", "Knut.FactsAgree.TransReportSort", "Knut.FactsAgree.TransRender"],
+        "lean": ["Knut.Properties.C01", "Knut.Properties.C01Table", "Knut.FactsAgree.TransAccount", "Knut.FactsAgree.TransPosting", "Knut.FactsAgree.TransTransaction", "Knut.FactsAgree.TransProcess", "Knut.FactsAgree.TransQuery", "Knut.FactsAgree.TransAmountsSum", "Knut.FactsAgree.TransReport", "Knut.FactsAgree.TransReportTotals", "Knut.FactsAgree.TransReportSort", "Knut.FactsAgree.TransRender", "Knut.FactsAgree.TransRenderVals"],
         "level": "proof",
         "claim": "Lean theorems over the model of the whole balance pipeline (check, ComputePrices, Valuate with daily value adjustments, Filter, CloseAccounts, Query, report totals): "
                  "C01_entries_cancel (for every journal made of posting pairs, every window/interval/--last/--diff/--close/--remap/-m level>=1, valued or not, without filters, the report inserts "
@@ -368,7 +368,7 @@ PROPS = {
         "timeout": {"quick": 1200, "thorough": 5400},
     },
     "C17": {
-        "lean": ["Knut.Properties.C17", "Knut.FactsAgree.TransTable", "Knut.FactsAgree.TransRender"],
+        "lean": ["Knut.Properties.C17", "Knut.FactsAgree.TransTable", "Knut.FactsAgree.TransRender", "Knut.FactsAgree.TransRenderVals"],
         "level": "proof",
         "claim": "Lean theorems over the model of lib/common/table (TextRenderer.Render incl. both width passes and the panic outcomes, numToString, addThousandsSep, "
                  "CSVRenderer.Render with encoding/csv quoting), for all tables whose rows have a common number n>=1 of cells with non-negative indents and no line breaks, "
